@@ -78,6 +78,24 @@ fn gen_depth(rng: &mut Rng) -> Case {
     Case { what: "depth", nodes: cur, lim, expect_ok: if judged { Some(nesting as u32 <= l) } else { None }, kind: "DepthLimitExceeded", expect_items: None, quantity: nesting as i64, limit: l as i64 }
 }
 
+/// a <config> that LOWERS the depth limit below the depth it stands at: what follows it at that depth (or
+/// deeper) nests deeper than the limit now in force and must be rejected
+fn gen_depth_lowered(rng: &mut Rng) -> Case {
+    let d = rng.range(3, 8) as usize;
+    let l = rng.range(1, d as i64 - 2) as u32;
+    let mut cur: Vec<X> = vec![X::leaf("config", &[("depth-limit", &l.to_string())])];
+    if rng.chance(1, 2) { cur.push(leaf(rng, 0)); } else { cur.push(X::node("g", &[], vec![leaf(rng, 0)])); }
+    if rng.chance(1, 2) { cur.insert(0, leaf(rng, 1)); }
+    for _ in 0..d {
+        let k = rng.below(2);
+        let mut level = siblings(rng, k);
+        level.push(X::node("g", &[], cur));
+        cur = level;
+    }
+    let nesting = cur.iter().map(|n| n.nesting()).max().unwrap_or(0);
+    Case { what: "depth-lowered-inside", nodes: cur, lim: Limits::default(), expect_ok: Some(false), kind: "DepthLimitExceeded", expect_items: None, quantity: nesting as i64, limit: l as i64 }
+}
+
 fn gen_loop(rng: &mut Rng) -> Case {
     let l = rng.range(1, 14) as u32;
     let c = (l as i64 + rng.range(-1, 1)).max(0) as usize;
@@ -162,7 +180,7 @@ fn stream(rep: &mut Report, drv: &mut Driver, rng: &mut Rng, n: usize) -> Result
         "same documents: accepted iff quantity <= limit, rejected with the matching limit error otherwise; when accepted every iteration is present (never truncated) and the depth counter is 0 at the end",
     );
     for i in 0..n {
-        let case = match i % 3 { 0 => gen_depth(rng), 1 => gen_loop(rng), _ => gen_var(rng) };
+        let case = match i % 3 { 0 if i % 15 == 0 => gen_depth_lowered(rng), 0 => gen_depth(rng), 1 => gen_loop(rng), _ => gen_var(rng) };
         let xml = doc_xml(&case.nodes);
         let imp = run_impl(&xml, case.lim);
         let mdl = run_model(drv, &case.nodes, case.lim)?;
